@@ -257,6 +257,8 @@ def write_evidence(prop, tier, seed, mod, cresults, obligations, wall, rc, viola
             txt = o.smt2()
         except Exception:
             txt = ''
+        if not isinstance(txt, str):
+            txt = str(txt)
         samples.append(dict(name=o.name, kind=o.kind, status=o.status, backend=o.backend, seconds=round(o.seconds, 3), smt2=txt[:3000]))
     known_count = len(known_hits)
     level = getattr(mod, 'LEVEL', 'proof')
